@@ -7,6 +7,7 @@ import PercevalModel.Lemmas.C02
 import PercevalModel.Lemmas.FockComp
 import PercevalModel.Lemmas.C02Mps
 import PercevalModel.Lemmas.C02Step
+import PercevalModel.Lemmas.C02Perm
 import Mathlib.Algebra.Star.Basic
 import Mathlib.Tactic.FieldSimp
 
@@ -354,6 +355,43 @@ theorem stepper_run_sound_GQ {M : ℕ} (comps : List (Comp GQ)) (hfit : Fits M c
     svGet (stepperRun FockComp.gqInv comps s) t = pamp (compsMatrix M comps) s t :=
   stepper_run_sound FockComp.gqInv FockComp.gqInv_mul comps hfit s t hs ht hst
 
+/-- **the PERM shortcut is the generic step of the permutation block**: relabelling every state
+(`PERM.apply`) gives the same amplitudes as `Stepper.apply` with the matrix `u[σ j, j] = 1` — any
+permutation list, any position, any photon number -/
+theorem stepper_perm_eq_block [CommRing R] {M k r0 : ℕ} (hk : r0 + k ≤ M) (inv : List ℕ → R)
+    (hinv : ∀ v, inv v * (prodFact v : R) = 1) {σ : List ℕ} (h : IsPermList k σ) (n : ℕ)
+    (sv : SV R) (hsv : KeysIn M n sv) (t : List ℕ) :
+    svGet (stepperPerm σ r0 sv) t = svGet (stepperApply inv (permMatL (R := R) k σ) r0 sv) t :=
+  svGet_stepperPerm hk inv hinv h n sv hsv t
+
+/-- **`Stepper.compile` as written, PERM shortcut included, is sound**: for a circuit of blocks and
+PERM components the final vector holds, for every output `t`, the amplitude of the circuit's full
+matrix (product of the embedded blocks and embedded permutation matrices) -/
+theorem stepper_runS_sound [CommRing R] {M : ℕ} (inv : List ℕ → R)
+    (hinv : ∀ v, inv v * (prodFact v : R) = 1) (steps : List (Step R))
+    (hfit : ∀ st ∈ steps, StepFits M st)
+    (s t : List ℕ) (hs : s.length = M) (ht : t.length = M) (hst : s.sum = t.sum) :
+    svGet (stepperRunS inv steps s) t = pamp (stepsMatrix M steps) s t := by
+  have hmem : s ∈ allStates M s.sum := (mem_allStates_iff M s.sum s).2 ⟨hs, rfl⟩
+  refine (stepperRunS_aux inv hinv s hs steps hfit [(s, (prodFact s : R))] 1 ?_ ?_).2 t
+    ((mem_allStates_iff M s.sum t).2 ⟨ht, hst.symm⟩)
+  · intro p hp
+    rw [List.mem_singleton.1 hp]
+    exact hmem
+  · intro u hu
+    obtain ⟨hul, hun⟩ := (mem_allStates_iff M s.sum u).1 hu
+    rw [pamp_identity s u hs hul hun.symm]
+    simp [svGet, eq_comm]
+
+theorem stepper_runS_sound_GQ {M : ℕ} (steps : List (Step GQ))
+    (hfit : ∀ st ∈ steps, StepFits M st)
+    (s t : List ℕ) (hs : s.length = M) (ht : t.length = M) (hst : s.sum = t.sum) :
+    svGet (stepperRunS FockComp.gqInv steps s) t = pamp (stepsMatrix M steps) s t :=
+  stepper_runS_sound FockComp.gqInv FockComp.gqInv_mul steps hfit s t hs ht hst
+
+/-- non-vacuity: a 3-cycle (not an involution) placed on modes 1..3 of four -/
+example : StepFits (R := GQ) 4 (.perm 1 [1, 2, 0]) := ⟨by decide, by decide⟩
+
 /-- non-vacuity: two overlapping two-mode components on three modes, bunched input -/
 example : Fits 3 [(⟨2, 0, exV⟩ : Comp GQ), ⟨2, 1, exV⟩] ∧ ([2, 0, 1] : List ℕ).length = 3 := by
   refine ⟨?_, rfl⟩
@@ -454,8 +492,8 @@ engines' native kernels (permanent, SLOS/SLAP layers, `StateVector`) and the num
 engine (tensor contraction, SVD and truncation of `update_state_2_mode`; only the two transition
 tensors it contracts with are modelled and proved) are external/numerical code — for them the model
 *is* the specification and agreement is established by the correspondence only; the Stepper's
-`_result_dict` cache keyed by `describe()` and its PERM shortcut inside a run (`perm_relabel` is the
-full-size statement) are validated by the correspondence; and the `1/√(∏s!∏t!)` normalisation is
+`_result_dict` cache keyed by `describe()` (two components whose parameters agree to 6 significant
+digits share an entry) and its photon-number filter are validated by the correspondence only; and the `1/√(∏s!∏t!)` normalisation is
 irrational, so theorems are about `pamp` and `|pamp|²` (`mps_tm2_normalised`, `evolve_normalised`
 quantify over any square roots instead).
 -/
